@@ -123,6 +123,18 @@ package cmd
 //@   ensures accepted-is-serviceable: err == nil ==> (c.Type == "simple" || c.Type == "ecs") && c.Size >= 0 &&
 //@             (c.Type == "ecs" && c.Size > 0 ==> c.ECSSize > 0) && c.TTLOverride != nil && c.TTLOverride.Min.Duration > 0
 
+// An accepted cache section, converted by toInternal, never makes the service
+// build a cache of size zero (the LRU library panics on a size <= 0): size 0
+// means `no cache` whatever the type says, and the ECS cache needs both sizes.
+//@ import dnssvc github.com/AdguardTeam/AdGuardDNS/internal/dnssvc
+//@ func (*cacheConfig).toInternal
+//@   property C20
+//@   requires c != nil && c.TTLOverride != nil && (c.Type == "simple" || c.Type == "ecs") && c.Size >= 0 && (c.Type == "ecs" && c.Size > 0 ==> c.ECSSize > 0)
+//@   modifies nothing
+//@   ensures accepted-sizes-build-no-empty-cache: cacheConf != nil && (cacheConf.Type == 1 || cacheConf.Type == 2 || cacheConf.Type == 3) &&
+//@             (cacheConf.Type == 2 ==> cacheConf.NoECSCount > 0) && (cacheConf.Type == 3 ==> cacheConf.NoECSCount > 0 && cacheConf.ECSCount > 0)
+//@   ensures cacheConf.NoECSCount == c.Size && cacheConf.ECSCount == c.ECSSize
+
 // connLimitConfig.toInternal panics when connlimiter.New rejects the
 // thresholds; validation makes that unreachable.
 //@ func (*connLimitConfig).toInternal
